@@ -18,6 +18,10 @@ use vharness::{capture, props};
 fn root() -> String {
     std::env::var("VERIF_ROOT").unwrap_or_else(|_| "/verif".to_string())
 }
+/// known_findings.json (VERIF_FINDINGS_FILE overrides it: used by tools/regen_known.py only)
+fn findings_path() -> String {
+    std::env::var("VERIF_FINDINGS_FILE").unwrap_or_else(|_| format!("{}/known_findings.json", root()))
+}
 fn seed() -> u64 {
     std::env::var("VERIF_SEED").ok().and_then(|s| s.parse::<i64>().ok()).map(|v| v as u64).unwrap_or(1)
 }
@@ -112,7 +116,7 @@ fn worker(args: &[String]) -> i32 {
     let seed: u64 = args[2].parse().unwrap_or(1);
     let out = &args[3];
     let Some(d) = props::get(id) else { return 2 };
-    let findings = Findings::load(&format!("{}/known_findings.json", root()));
+    let findings = Findings::load(&findings_path());
     let inflight = InFlight::new(&args[4], threads());
     let mut res = run_generated(d.as_ref(), tier, seed, &findings, Some(&inflight));
     let hz = findings.hazards_for(d.id());
@@ -134,7 +138,7 @@ fn one(args: &[String]) -> i32 {
     let Some(d) = props::get(&args[0]) else { return 2 };
     let mode = mode_from(&args[1]);
     let tape = std::fs::read(&args[2]).unwrap_or_default();
-    let findings = Findings::load(&format!("{}/known_findings.json", root()));
+    let findings = Findings::load(&findings_path());
     let hz = findings.hazards_for(d.id());
     // same stack size as the generated-case worker threads
     let (o, rendered) = std::thread::scope(|s| {
@@ -246,7 +250,7 @@ fn run(id: &str, tier_s: &str) -> i32 {
     };
     let root = root();
     let seed = seed();
-    let findings = Findings::load(&format!("{}/known_findings.json", root));
+    let findings = Findings::load(&findings_path());
     let dir = scratch_dir();
     let out = format!("{}/worker.json", dir);
     let infl = format!("{}/inflight", dir);
@@ -558,7 +562,7 @@ fn main() {
                 t.extend(tape);
                 tape = t;
             }
-            let findings = Findings::load(&format!("{}/known_findings.json", root()));
+            let findings = Findings::load(&findings_path());
             let r = run_isolated(&id, "main", &tape, "adopt");
             match r.outcome.as_str() {
                 "fail" | "abort" => {
